@@ -199,6 +199,17 @@ def _run_own(tier, seed, build, res):
             k = t.find(w)
             if p[k:k + len(w)] != list(range(off + 1, off + 1 + len(w))):
                 return 'word %r at offset %d maps to %r' % (w, off, p[k:k + len(w)])
+        # a placeholder for an insertion comes from the language-change
+        # collection of the language of the part it stands in
+        for lg, t, p in parts:
+            try:
+                own = set(parameters.Parameters(lg).lang_context.lang_change_repl)
+            except Exception:
+                continue
+            for m in re.finditer(r'(?<![\w-])(\w)-\1-\1(?![\w-])', t):
+                if m.group(0) not in own:
+                    return ('placeholder %r stands in a part labelled %s, whose language-change '
+                            'collection is %r' % (m.group(0), lg, sorted(own)))
         # the same words as the single-language run
         c1 = parsecase.T2T(c.latex, lang=c.lang, pack='*', multi=False, files={})
         s = parsecase.run_t2t(c1)
@@ -238,8 +249,41 @@ def _run_own(tier, seed, build, res):
                               'labelled wrongly or no result: %r' % (im[:2],)))
 
 
+def macro_name_stream(res):
+    """the language name given through a user macro: the definition in force
+    at the switch counts, also after a redefinition"""
+    texs = []
+    for mac in ('\\foreignlanguage{\\other}{%s}', '\\begin{otherlanguage}{\\other}%s\\end{otherlanguage}',
+                '{\\selectlanguage{\\other}%s}'):
+        tex = '\\usepackage{babel}\\newcommand{\\other}{german}\nAaa bbb ccc ddd.\n'
+        tex += mac % 'Wa1k Wb2k Wc3k Wd4k We5k Wf6k Wg7k.' + '\nGgg hhh iii jjj.\n'
+        tex += '\\renewcommand{\\other}{russian}\n'
+        tex += mac % 'Xa1k Xb2k Xc3k Xd4k Xe5k Xf6k Xg7k.' + '\nKkk lll mmm.\n'
+        tex += '\\renewcommand{\\other}{german}\n'
+        tex += mac % 'Ya1k Yb2k Yc3k Yd4k Ye5k Yf6k Yg7k.' + '\nNnn ooo.\n'
+        texs.append(tex)
+    cases = [(parsecase.T2T(t, lang='en-GB', pack='*', multi=True, thresh=th, files={}), None, 'macro-name')
+             for t in texs for th in (0, 2)]
+
+    def oracle(c, d, kind, im):
+        if im[0] != 'OK':
+            return 'no result: %r' % (im[:2],)
+        want = {'Wa1k': 'de-DE', 'Xa1k': 'ru-RU', 'Ya1k': 'de-DE', 'Ggg': 'en-GB', 'Kkk': 'en-GB',
+                'Nnn': 'en-GB', 'Xg7k': 'ru-RU', 'Yg7k': 'de-DE'}
+        if 'selectlanguage' in c.latex:
+            want = {'Wa1k': 'de-DE', 'Xa1k': 'ru-RU', 'Ya1k': 'de-DE', 'Xg7k': 'ru-RU'}
+        for w, lg in want.items():
+            got = [l for l, t, p in universe.texts_of(im) if w in t]
+            if got != [lg]:
+                return ('word %r stands in %s text (the macro \\other is defined as that language '
+                        'at the switch), it is in parts labelled %r' % (w, lg, got))
+        return None
+    universe.run(cases, res, 'macro-name', project, oracle)
+
+
 def run(tier, seed, build, res):
     _run_own(tier, seed, build, res)
+    macro_name_stream(res)
     # snippets of /repo's own tests and their mutations (harness/seeds.py)
     universe.run_seeds(random.Random(seed + 7), res, project, tier, share=0.6)
 
